@@ -416,4 +416,27 @@ theorem encGroup_zero_last (w x y z : UInt8) :
   rw [hA]
   simp
 
+/-! ### the two low digits of a quantum (used for the Symbol text form, whose last character is half filler) -/
+
+theorem digits_two (N : Nat) : digitsLE 32 8 N = N % 32 :: N / 32 % 32 :: digitsLE 32 6 (N / 1024) := by
+  have e : N / 32 / 32 = N / 1024 := by omega
+  rw [show (8 : Nat) = 6 + 1 + 1 from rfl, digitsLE, digitsLE, e]
+
+theorem encGroup_split (g : Bytes) :
+    encGroup g = (digitsLE 32 6 (beNat g / 1024)).reverse.map charOf ++ [charOf (beNat g / 32 % 32), charOf (beNat g % 32)] := by
+  unfold encGroup
+  rw [digits_two]
+  simp
+
+theorem beNat_snoc (g : Bytes) (v : UInt8) : beNat (g ++ [v]) = 256 * beNat g + v.toNat := by
+  simp [beNat, leNat]
+  omega
+
+theorem charOf_inj {d e : Nat} (hd : d < 32) (he : e < 32) (h : charOf d = charOf e) : d = e := by
+  have h1 := valOf_charOf d hd
+  have h2 := valOf_charOf e he
+  rw [h] at h1
+  rw [h1] at h2
+  exact Option.some.inj h2
+
 end SymbolVerif.Sdk.Base32
